@@ -82,6 +82,7 @@ pub fn run_finish_op<W: super::World>(w: &mut W, op: Op, env: &mut Env) {
     env.wakes.clear();
     env.alloc = Default::default();
     env.finish_ops.push(op);
+    env.log_op(op);
     env.log.add(0xF1);
     env.log.add(op.k as u64 ^ ((op.a as u64) << 16));
     w.exec(op, env);
